@@ -113,10 +113,10 @@ Section P.
   Proof.
     intros Hw. unfold Model.norm_const.
     destruct (wf_cases _ _ Hw) as [(z & -> & Hk & Hr)|[(f & -> & Hk)|[(x & -> & ->)|(b & -> & ->)]]].
-    - destruct k; try discriminate; cbv; intros [= <-]; reflexivity.
-    - destruct k; try discriminate; cbv; intros [= <-]; reflexivity.
-    - cbv. intros [= <-]. reflexivity.
-    - cbv. intros [= <-]. reflexivity.
+    - destruct k; try discriminate; unfold Sem.accessor, acc_meth, wide, Sem.convert; simpl; intros [= <-]; reflexivity.
+    - destruct k; try discriminate; unfold Sem.accessor, acc_meth, wide, Sem.convert; simpl; intros [= <-]; reflexivity.
+    - unfold Sem.accessor, acc_meth, wide, Sem.convert; simpl. intros [= <-]. reflexivity.
+    - unfold Sem.accessor, acc_meth, wide, Sem.convert; simpl. intros [= <-]. reflexivity.
   Qed.
 
   (* for integers, bools and strings the closure sees the constant itself *)
